@@ -1,5 +1,6 @@
 """Lsip (SIP decoder sub-check: C19, C05, C01; C06 and C07 do not apply) configuration for ./check"""
 CONF = {
+    'coq_sample': 12,   # cases re-evaluated inside Coq by vm_compute against the extracted runner's output
     'interesting': ['truncated-prefix-of-valid', 'first-line', 'header-shape', 'cseq-value', 'content-length-value', 'consistent-length-cut', 'line-ending',
                     'request', 'response', 'content-length', 'cseq', 'repeated-header', 'error-after-fields-set', 'residue-after-error', 'decode-error', 'malformed', 'seed'],
     'rule': 'ASCII messages built by the harness: requests of all 15 methods and responses, with Via/From/To (long, compact and odd-case names), CSeq, a second Via '
